@@ -12,9 +12,15 @@ Oracle (independent model of the *committed* option state, written from the prop
 statement):
 
 * whatever way an update ends with an exception (or a listener raised ``OptionsError``
-  during it), it counts as *rejected*: every option must equal the previously committed
-  state and every listener's last observation of every option it was told about must
-  equal that state again;
+  during it), it counts as *rejected*: every option (the whole table, not only the options
+  named in the update) must equal the previously committed state, every listener's last
+  observation of every option it was told about must equal that state again, and whatever
+  a listener reads from the table while it is notified of the rollback is that state too;
+* listeners may react to a notification by updating OTHER options themselves (update,
+  setattr, setter, toggler, set; nesting depth 1-3).  Such a nested update is an update like
+  any other: when its call raises, the whole table is as it was just before that call;
+  when it returns, its values are assigned - and they go away again with every enclosing
+  update that is rejected later;
 * an update that returns normally is *accepted*: assigned options hold the assigned
   values, the others are untouched, and every interested listener was called with exactly
   the set of assigned names;
@@ -52,7 +58,11 @@ RULE = ("seeded histories of 4-30 operations over a generated option schema cont
         "live options, save (in place over earlier content, with/without defaults) under ENOSPC/EIO/short-write "
         "faults with 16..8192 byte file buffers, load into fresh options (optionally with deferred late options); "
         "1-4 listeners (changed receivers and subscribers) that raise OptionsError for the new values, always, or "
-        "for the restored values; string values from a YAML-hostile pool. non-trivial = at least one accepted "
+        "for the restored values (optionally only for named options); in a share of the updates 1-3 listeners react "
+        "to the notification by updating OTHER options (update/setattr/setter/toggler/set, some wrongly typed or "
+        "malformed, some rejected by a listener, OptionsError swallowed or passed on, nesting depth 1-3) while a "
+        "listener called earlier/later/the same one rejects the outer or the nested update; string values from a "
+        "YAML-hostile pool. non-trivial = at least one accepted "
         "state-changing update AND (a rejected update or a checked round trip); distinct = distinct event-log digests")
 COMPONENTS_REAL = ["optmanager.OptManager", "optmanager._Option", "utils.typecheck.check_option_type",
                    "utils.signals.SyncSignal", "optmanager.save/load_paths/load/serialize/parse", "ruamel.yaml",
@@ -62,12 +72,19 @@ COMPONENTS_STUB = ["pathlib.Path inside optmanager (SimPath over an in-memory Si
 ASSUMPTIONS = ["any exception leaving an update call means the update was rejected",
                "a listener 'observes' an option when it is called with that option's name in `updated`",
                "list and tuple values of a sequence option with equal elements are the same value",
+               "a listener that updates options while it is being notified only touches options other than the ones "
+               "it is being notified about, and lets no exception other than OptionsError escape",
+               "a listener that objects to a nested update rejects that nested update; the enclosing update is "
+               "rejected only if the acting listener passes the OptionsError on",
                "nothing is demanded from a save() that raised, nor from files that contained invalid entries "
                "before the save (they are preserved by design)"]
 EXPECTED_PROBES = ["rejected_by_listener", "rejected_by_type_kth", "rejected_by_type_first", "deferred_applied",
                    "roundtrip_checked", "roundtrip_hostile", "roundtrip_deferred", "save_fault_error",
                    "save_short_write", "restore_rejected", "load_live_rejected", "load_live_accepted",
-                   "set_malformed", "corrupt_config"]
+                   "set_malformed", "corrupt_config",
+                   "nested_update_then_outer_rejected", "nested_update_then_outer_accepted", "nested_update_committed",
+                   "nested_update_rejected_by_listener", "nested_update_rejected_by_value",
+                   "nested_update_then_nested_rejected", "nested_depth2_committed", "nested_rejection_passed_on"]
 
 TYPES = {
     "bool": bool,
@@ -418,6 +435,9 @@ NEL = chr(0x85)
 #   restore - a listener that raises while it is notified of the restored values
 #   fold    - string values longer than ~60 characters that contain spaces (ruamel folds them)
 #   nel     - string values containing U+0085
+# (the finding "nested update undone silently" - a listener's nested update that returned normally and is
+#  undone by the rollback of an enclosing update was never announced to anybody - is met by every run with a
+#  nested update followed by an enclosing rejection, one run in five; it is repaired in the tree under test)
 EXPOSURE = {"quick": {"kth": 0.2, "restore": 0.05, "fold": 0.15, "nel": 0.05},
             "thorough": {"kth": 0.3, "restore": 0.08, "fold": 0.25, "nel": 0.1}}
 
@@ -584,9 +604,159 @@ def gen_spec(g, nm, t):
     return [f"{nm}={gen_str(g)}"]
 
 
+# --- listeners that react to an update by updating OTHER options (nested updates) ---------------
+# op["actors"] = [{"l": listener, "on": [names]|None, "steps": [nested calls], "propagate": bool}]
+#   the listener, when it is notified of new values of one of the `on` options (any option when None),
+#   performs the nested calls once; an OptionsError from a nested call is swallowed, or re-raised
+#   (= this listener rejects the enclosing update) when `propagate`.
+# a rule may carry "only": [names] - the listener then objects only to (new values of) these options.
+NEST_SHARE = {"quick": 0.2, "thorough": 0.25}
+
+
+def call_rank(listeners, i):
+    """order in which the manager calls listeners: subscribers (in order) before changed receivers"""
+    return (0 if listeners[i]["kind"] == "subscribe" else 1, i)
+
+
+def interested(listeners, names):
+    s = set(names)
+    return [i for i, l in enumerate(listeners) if l["kind"] == "changed" or s & set(l.get("names", []))]
+
+
+def gen_nested_step(g, targets, types):
+    r = g.r
+    x = r.random()
+    bools = [n for n in targets if types[n] == "bool"]
+    if x < 0.15 and bools:
+        return {"via": "toggler", "name": r.choice(bools)}
+    if x < 0.30:
+        nm = r.choice(targets)
+        st = r.random()
+        if types[nm] == "bool" and st < 0.8:
+            specs = [f"{nm}={r.choice(['true', 'false', 'toggle'])}"]
+        elif types[nm] in ("int", "oint") and st < 0.8:
+            specs = [f"{nm}={r.choice(INTS)}"]
+        elif types[nm] in ("int", "oint", "bool"):
+            specs = [f"{nm}=notavalue", f"{nm}=1"]  # clearly malformed
+        else:
+            specs = gen_spec(g, nm, types[nm])
+        return {"via": "set", "specs": specs}
+    via = r.choice(["update", "update", "update", "setattr", "setter"])
+    n = 1 if via != "update" else min(r.choice([1, 1, 2, 3]), len(targets))
+    chosen = r.sample(targets, n)
+    bad = r.randrange(n) if r.random() < 0.12 else -1
+    edits = []
+    for i, nm in enumerate(chosen):
+        v = gen_invalid(g, types[nm]) if i == bad else gen_valid(g, types[nm])
+        edits.append([nm, enc(v)])
+    return {"via": via, "edits": edits}
+
+
+def step_names(step):
+    if step["via"] == "toggler":
+        return [step["name"]]
+    if step["via"] == "set":
+        return sorted({s.split("=", 1)[0] for s in step["specs"]})
+    return [n for n, _ in step["edits"]]
+
+
+def gen_nesting(g, listeners, outer, known, types):
+    """(actors, rules) for an update of the options `outer`"""
+    r = g.r
+    nl = len(listeners)
+    targets = [n for n in known if n not in outer]
+    if not targets or nl == 0:
+        return [], gen_rules(g, nl)
+    cand = interested(listeners, outer) or list(range(nl))
+    la = r.choice(cand)
+    pat = r.random()
+
+    def steps(tg, k=None):
+        return [gen_nested_step(g, tg, types) for _ in range(k or r.choice([1, 1, 2, 3]))]
+
+    def later(than, pool, p=0.75):
+        """a listener the manager calls after `than` (with probability p; otherwise any, `than` included)"""
+        after = [i for i in pool if call_rank(listeners, i) > call_rank(listeners, than)]
+        if after and r.random() < p:
+            return r.choice(after)
+        return r.choice(pool)
+
+    on = None if r.random() < 0.3 else sorted(r.sample(outer, r.choice([1, len(outer)])))
+    if pat < 0.45:
+        # nested updates of other options, then the outer update is rejected (mostly by a later listener)
+        act = {"l": la, "on": on, "steps": steps(targets), "propagate": r.random() < 0.2}
+        lr = later(la, cand)
+        phase = "both" if r.random() < 0.15 else "fwd"
+        rule = {"l": lr, "phase": phase, "only": sorted(outer)}
+        if r.random() < 0.15:
+            del rule["only"]  # objects to every new value: the nested updates are rejected as well
+        return [act], [rule]
+    if pat < 0.65:
+        # the nested update itself is rejected by a listener (swallowed or passed on by the acting listener)
+        st = steps(targets)
+        tnames = sorted({n for s in st for n in step_names(s)})
+        act = {"l": la, "on": on, "steps": st, "propagate": r.random() < 0.5}
+        pool = interested(listeners, tnames) or list(range(nl))
+        rules = [{"l": r.choice(pool), "phase": "fwd", "only": sorted(r.sample(tnames, r.choice([1, len(tnames)])))}]
+        if r.random() < 0.3:
+            lr = later(la, cand)
+            if lr != rules[0]["l"]:
+                rules.append({"l": lr, "phase": "fwd", "only": sorted(outer)})
+        return [act], rules
+    if pat < 0.85:
+        # depth 2: a nested update of B makes another (or the same) listener update C
+        st1 = steps(targets, r.choice([1, 1, 2]))
+        b = sorted({n for s in st1 for n in step_names(s)})
+        t2 = [n for n in targets if n not in b]
+        acts = [{"l": la, "on": on, "steps": st1, "propagate": r.random() < 0.3}]
+        c = []
+        if t2:
+            st2 = steps(t2, r.choice([1, 1, 2]))
+            c = sorted({n for s in st2 for n in step_names(s)})
+            pool = interested(listeners, b) or list(range(nl))
+            acts.append({"l": r.choice(pool), "on": None if r.random() < 0.3 else b, "steps": st2,
+                         "propagate": r.random() < 0.3})
+        y = r.random()
+        if y < 0.2:
+            rules = []
+        elif y < 0.55:
+            rules = [{"l": later(la, cand), "phase": "fwd", "only": sorted(outer)}]
+        elif y < 0.8:
+            rules = [{"l": later(acts[-1]["l"], interested(listeners, b) or cand), "phase": "fwd", "only": b}]
+        else:
+            rules = [{"l": r.randrange(nl), "phase": "fwd", "only": c or b}]
+            if r.random() < 0.5:
+                lr = later(la, cand)
+                if lr != rules[0]["l"]:
+                    rules.append({"l": lr, "phase": "fwd", "only": sorted(outer)})
+        return acts, rules
+    # free mixture
+    acts = []
+    for _ in range(r.choice([1, 2, 2, 3])):
+        trig = r.choice([None, sorted(outer), [r.choice(known)], sorted(r.sample(targets, min(2, len(targets))))])
+        acts.append({"l": r.randrange(nl), "on": trig, "steps": steps(targets), "propagate": r.random() < 0.3})
+    rules = gen_rules(g, nl)
+    for ru in rules:
+        if r.random() < 0.5:
+            ru["only"] = sorted(r.sample(known, min(len(known), r.choice([1, 2, 3]))))
+    return acts, rules
+
+
 def generate(rng, tier):
     r = rng.at("c44")
     g = Gen(r, tier)
+    nest_share = NEST_SHARE.get(tier, NEST_SHARE["quick"])
+
+    def reactions(op, outer):
+        """attach reacting listeners to (some of) the updates of known options"""
+        outer = [n for n in outer if n in known]
+        if outer and nl and r.random() < nest_share:
+            acts, rules = gen_nesting(g, listeners, sorted(set(outer)), known, types)
+            if acts:
+                op["actors"] = acts
+                op["rules"] = rules
+        return op
+
     # --- schema ---------------------------------------------------------------
     opts = []
     tlist = list(TYPE_NAMES) + [r.choice(TYPE_NAMES) for _ in range(r.choice([0, 1, 2, 4]))]
@@ -640,7 +810,8 @@ def generate(rng, tier):
                 else:
                     v = r.choice([1, "x", None])
                 edits.insert(r.randrange(len(edits) + 1), [nm, enc(v)])
-            ops.append({"op": "update", "via": via, "edits": edits, "rules": gen_rules(g, nl)})
+            ops.append(reactions({"op": "update", "via": via, "edits": edits, "rules": gen_rules(g, nl)},
+                                 [n for n, _ in edits]))
         elif x < 0.46:
             k = r.choice([1, 1, 2, 3])
             specs = []
@@ -651,11 +822,13 @@ def generate(rng, tier):
                 nm = r.choice(late_pending + unknown_names)
                 specs += gen_spec(g, nm, types.get(nm, "str"))
                 defer = defer or r.random() < 0.5
-            ops.append({"op": "set", "specs": specs, "defer": defer, "rules": gen_rules(g, nl)})
+            ops.append(reactions({"op": "set", "specs": specs, "defer": defer, "rules": gen_rules(g, nl)},
+                                 [s.split("=", 1)[0] for s in specs]))
         elif x < 0.50:
             bools = [n for n in known if types[n] == "bool"]
             if bools:
-                ops.append({"op": "toggle", "name": r.choice(bools), "rules": gen_rules(g, nl)})
+                nm = r.choice(bools)
+                ops.append(reactions({"op": "toggle", "name": nm, "rules": gen_rules(g, nl)}, [nm]))
         elif x < 0.60 and late_pending:
             nm = late_pending.pop(r.randrange(len(late_pending)))
             known.append(nm)
@@ -673,6 +846,7 @@ def generate(rng, tier):
         elif x < 0.80:
             path = r.choice(paths)
             y = r.random()
+            recs = []
             if y < 0.14:
                 data = r.choice(["a: [1, 2", "key: 'unterminated", "just a scalar", "- a\n- b\n", "\xff\xfe\x00bad",
                                  "a: 1\na: 2\n", "\tx: 1", "{", "%YAML 9.9\n---\na: 1\n", "a: b: c", "? [\n"])
@@ -687,7 +861,7 @@ def generate(rng, tier):
                 ops.append({"op": "write_config", "path": path, "records": recs, "style": r.randrange(30)})
             maybe_torn.discard(path)
             if r.random() < 0.75:
-                ops.append({"op": "load", "path": path, "rules": gen_rules(g, nl)})
+                ops.append(reactions({"op": "load", "path": path, "rules": gen_rules(g, nl)}, [n for n, _ in recs]))
         elif x < 0.97:
             path = r.choice(paths)
             fault = None
@@ -741,21 +915,45 @@ class Listener:
         for n, v in cur.items():
             if self.names is None or n in self.names:
                 self.view[n] = v
-        differs = any(n in h.prev and not same(v, h.prev[n]) for n, v in cur.items())
+        changed = {n for n, v in cur.items() if n in h.prev and not same(v, h.prev[n])}
+        differs = bool(changed)
         if differs:
             h.saw_forward = True
-        phase = h.rules.get(self.idx)
+        phase, only = h.rules.get(self.idx, (None, None))
         raising = False
         if phase == "both":
-            raising = True
+            raising = only is None or bool(only & set(upd))
         elif phase == "fwd":
-            raising = differs
+            raising = differs if only is None else bool(only & changed)
         elif phase == "restore":
-            raising = (not differs) and h.saw_forward
-        h.calls.append((self.idx, tuple(upd), raising))
+            raising = (not differs) and h.saw_forward and (only is None or bool(only & set(upd)))
+        # the whole table as this listener can read it right now, and the update it is notified about
+        depth = len(h.frames) - 1
+        frame = h.frames[-1]
+        h.calls.append((self.idx, tuple(upd), raising, depth))
+        # (only rollback notifications are judged by what the listener can read from the whole table)
+        rolling_back = frame["first_raise"] is not None
+        h.callinfo.append((self.idx, frame["id"], h.actual() if rolling_back else None,
+                           dict(frame["late"]) if rolling_back else None))
+        # reactions: nested updates of other options
+        for act in h.actors.get(self.idx, ()):
+            on = act.get("on")
+            if act["fired"] or not (changed if on is None else changed & set(on)):
+                continue
+            act["fired"] = True
+            h.notified.append(set(upd))
+            try:
+                for step in act.get("steps", []):
+                    e = h.nested_call(self.idx, step)
+                    if isinstance(e, exceptions.OptionsError) and act.get("propagate"):
+                        h.probe("nested_rejection_passed_on")
+                        h.reject(self.idx, "passed_on")
+                        raise exceptions.OptionsError(f"listener {self.idx} passes on: {e}")
+            finally:
+                h.notified.pop()
         if raising:
             h.fault("reject_" + phase)
-            h.raised.append((self.idx, phase))
+            h.reject(self.idx, phase)
             raise exceptions.OptionsError(f"listener {self.idx} rejects ({phase})")
 
 
@@ -774,9 +972,18 @@ class Harness:
         self.model: dict[str, typing.Any] = {}
         self.filemodel: dict[str, dict] = {}
         self.prev: dict[str, typing.Any] = {}
-        self.rules: dict[int, str] = {}
-        self.calls: list = []
-        self.raised: list = []
+        self.rules: dict[int, tuple] = {}      # listener -> (phase, None | names it objects to)
+        self.actors: dict[int, list] = {}      # listener -> reactions (nested updates) for the current operation
+        self.calls: list = []                  # (listener, names, raising, nesting depth) per notification
+        self.callinfo: list = []               # parallel: (listener, update id, whole table as seen by the listener)
+        self.raised: list = []                 # (listener, phase, nesting depth)
+        self.frames: list = [self.new_frame(0, {})]   # updates in progress, outermost first
+        self.notified: list = []               # names of the notifications the acting listeners are reacting to
+        self.nested_log: list = []
+        self.nested_undone: set = set()        # options assigned by a nested update that returned normally
+        self.next_id = 1
+        self.rollback_rejected = False         # a listener raised while it was told about a rollback
+        self.nested_rolled_back: set = set()   # options assigned within a nested update that a listener rejected
         self.saw_forward = False
         self.errored = 0
         self.tainted = False  # live options were loaded from a torn file
@@ -809,6 +1016,190 @@ class Harness:
     def on_errored(self, exc):
         self.errored += 1
 
+    # -- updates in progress (the top-level one and those made by reacting listeners) ---------
+    @staticmethod
+    def new_frame(fid, pre):
+        # effects: what nested updates that returned normally assigned (in temporal order)
+        # first_raise: index into self.calls from which notifications are rollback notifications
+        # late: the same as effects, but assigned while listeners were told about the rollback of this update,
+        #       i.e. AFTER the table had been restored: these are updates in their own right and stay
+        return {"id": fid, "pre": pre, "effects": {}, "late": {}, "first_raise": None, "committed_change": False}
+
+    def commit_into(self, parent, eff, changed):
+        if parent["first_raise"] is None:
+            parent["effects"].update(eff)
+            if changed:
+                parent["committed_change"] = True
+        else:
+            parent["late"].update(eff)
+
+    def reject(self, idx, phase):
+        depth = len(self.frames) - 1
+        self.raised.append((idx, phase, depth))
+        fr = self.frames[-1]
+        if fr["first_raise"] is None:
+            fr["first_raise"] = len(self.calls)
+        else:
+            # this update has been rejected already: the listener objects to being told about the rollback
+            self.rollback_rejected = True
+
+    def check_rollback_notifications(self, frame, what, nested):
+        """after a rejected update: the state shown to the listeners notified of the rollback is the
+        state before that update - the whole table, not only the options named in the notification"""
+        if frame["first_raise"] is None:
+            return False
+        pre = frame["pre"]
+        for j in range(frame["first_raise"], len(self.calls)):
+            idx, fid, seen, late = self.callinfo[j]
+            if fid != frame["id"] or seen is None:
+                continue
+            if late:
+                pre = dict(frame["pre"])
+                pre.update(late)  # what listeners told earlier about this rollback assigned in reaction to it
+            bad = [n for n in sorted(seen) if n in pre and not same(seen[n], pre[n])]
+            if bad:
+                n = bad[0]
+                L = self.listeners[idx]
+                key = {"listener": L.kind}
+                if nested:
+                    key["nested"] = True
+                self.violation("rollback_notification_wrong_state", key,
+                               f"{what} was rejected; in the rollback notification {self.calls[j][1]} {L.kind} listener "
+                               f"{idx} reads {n}={short(seen[n])} but before the update it was {short(pre[n])}; "
+                               f"options not at their previous value: {bad}")
+                return True
+        return False
+
+    def check_accept_notifications(self, frame, assigned, what):
+        names = tuple(sorted(assigned))
+        for L in self.listeners:
+            mine = [c for c, info in zip(self.calls, self.callinfo) if c[0] == L.idx and info[1] == frame["id"]]
+            interested = L.kind == "changed" or bool(L.names & set(names))
+            if interested and not mine and (L.kind == "changed" or L.names):
+                self.violation("accepted_update_bad_notification", {"listener": L.kind, "problem": "not_notified"},
+                               f"{what} assigned {names} but {L.kind} listener {L.idx} was not called")
+            for c in mine:
+                if c[1] != names:
+                    self.violation("accepted_update_bad_notification",
+                                   {"listener": L.kind, "problem": "wrong_names"},
+                                   f"{what} assigned {names} but listener {L.idx} was told {c[1]}")
+                    break
+
+    def nested_call(self, idx, step):
+        """A listener, while it is being notified, updates other options.  Returns the exception of the
+        nested call (None: it returned normally, or it was not made at all)."""
+        via = step.get("via")
+        o = self.opts
+        blocked = set().union(*self.notified) if self.notified else set()
+        pre = self.actual()
+        assigned = None
+        names: list = []
+        if via in ("update", "setattr", "setter"):
+            edits = []
+            for n, v in step.get("edits", []):
+                if n in self.known and n not in blocked and n not in [e[0] for e in edits]:
+                    edits.append((n, dec(v)))
+            if via != "update":
+                edits = edits[:1]
+            if not edits:
+                return None
+            kw = dict(edits)
+            assigned = dict(edits)
+            names = [n for n, _ in edits]
+            if via == "update":
+                fn = lambda: o.update(**kw)
+            elif via == "setattr":
+                fn = lambda: setattr(o, edits[0][0], edits[0][1])
+            else:
+                fn = lambda: o.setter(edits[0][0])(edits[0][1])
+        elif via == "toggler":
+            n = step.get("name")
+            if n not in self.known or self.types[n] != "bool" or n in blocked:
+                return None
+            assigned = {n: not pre[n]}
+            names = [n]
+            fn = lambda: o.toggler(n)()
+        elif via == "set":
+            specs = [str(s) for s in step.get("specs", [])]
+            groups = self.group_specs(specs)
+            if not groups or any(n not in self.known or n in blocked for n in groups):
+                return None
+            assigned = {}
+            for n, vals in groups.items():
+                st, v = parse_setvals(self.types[n], pre[n], vals)
+                if st == AMBIG:
+                    return None  # the documentation does not say whether this is accepted
+                if st == MALFORMED:
+                    assigned = None
+                    break
+                assigned[n] = v
+            names = list(groups)
+            fn = lambda: o.set(*specs)
+        else:
+            return None
+        frame = self.new_frame(self.next_id, pre)
+        self.next_id += 1
+        self.frames.append(frame)
+        depth = len(self.frames) - 1
+        exc = None
+        try:
+            fn()
+        except Exception as e:
+            exc = e
+        finally:
+            self.frames.pop()
+        act = self.actual()
+        excname = type(exc).__name__ if exc is not None else None
+        what = f"nested {via}({sorted(names)}) made by listener {idx} at depth {depth}"
+        by_listener = frame["first_raise"] is not None
+        if exc is not None:
+            want = dict(pre)
+            want.update(frame["late"])
+        else:
+            want = dict(pre)
+            if assigned is None:
+                assigned = {n: act[n] for n in names}  # a malformed spec was accepted: adopt what it did
+            want.update(assigned)
+            want.update(frame["effects"])
+        bad = [n for n in self.known if not same(act[n], want[n])]
+        self.nested_log.append((idx, depth, via, tuple(sorted(names)), excname,
+                                tuple((n, norm(act[n])) for n in sorted(names))))
+        if bad:
+            n = bad[0]
+            if exc is not None:
+                self.violation("rejected_update_not_rolled_back",
+                               {"exc": excname, "listener_rejected": by_listener, "nested": True},
+                               f"{what} was rejected with {exc!r} but left {n}={short(act[n])} "
+                               f"(previous value {short(want[n])}); changed options: {bad}")
+            else:
+                self.violation("accepted_update_wrong_state", {"via": "nested"},
+                               f"{what} returned normally but {n}={short(act[n])}, expected {short(want[n])}; "
+                               f"differing options: {bad}")
+        if exc is not None:
+            self.probe("nested_update_rejected_by_listener" if by_listener else "nested_update_rejected_by_value")
+            if not bad:
+                self.check_rollback_notifications(frame, what, True)
+            if frame["committed_change"]:
+                self.probe("nested_update_then_nested_rejected")
+            if by_listener:
+                self.nested_rolled_back |= set(names) | set(frame["effects"])
+            if frame["late"]:
+                self.probe("update_during_rollback_notification")
+                self.commit_into(self.frames[-1], frame["late"], True)
+        else:
+            eff = dict(assigned)
+            eff.update(frame["effects"])
+            changed = any(not same(pre[n], act[n]) for n in self.known)
+            self.commit_into(self.frames[-1], eff, changed)
+            self.nested_undone |= set(eff)
+            if changed:
+                self.probe("nested_update_committed")
+                if depth >= 2:
+                    self.probe("nested_depth2_committed")
+            if not bad:
+                self.check_accept_notifications(frame, assigned, what)
+        return exc
+
     # -- setup ---------------------------------------------------------------
     def setup(self):
         for o in self.sc["opts"]:
@@ -829,7 +1220,7 @@ class Harness:
             self.listeners.append(L)
 
     # -- the core: one real call + the oracle ------------------------------------
-    def transact(self, kind, via, fn, rules, expect, is_update=True, quiet=False):
+    def transact(self, kind, via, fn, rules, expect, is_update=True, quiet=False, actors=None):
         """Run fn() (a real call that may change options) and judge it.
 
         expect(): called only when fn returned normally; returns {name: value} assigned by an
@@ -837,9 +1228,23 @@ class Harness:
         adopted after the type check).  quiet: the outcome depends on the bytes of a torn file
         (whose key order follows the interpreter's hash seed) and stays out of the event log."""
         self.prev = copy.deepcopy(self.model)
-        self.rules = {int(x["l"]): x["phase"] for x in (rules or []) if int(x["l"]) < len(self.listeners)}
+        self.rules = {int(x["l"]): (x["phase"], set(x["only"]) if x.get("only") is not None else None)
+                      for x in (rules or []) if int(x["l"]) < len(self.listeners)}
+        self.actors = {}
+        for a in (actors or []):
+            if int(a["l"]) < len(self.listeners):
+                self.actors.setdefault(int(a["l"]), []).append(dict(a, fired=False))
         self.calls = []
+        self.callinfo = []
         self.raised = []
+        self.nested_log = []
+        self.nested_undone = set()
+        self.notified = []
+        self.rollback_rejected = False
+        self.nested_rolled_back = set()
+        self.next_id = 1
+        top =self.new_frame(0, self.prev)
+        self.frames = [top]
         self.saw_forward = False
         exc = None
         try:
@@ -848,28 +1253,40 @@ class Harness:
             exc = e
         finally:
             self.rules = {}
+            self.actors = {}
+            self.frames = [top]
         excname = type(exc).__name__ if exc is not None else None
-        rejected = exc is not None or bool(self.raised)
-        restore_rejected = any(p == "restore" for _, p in self.raised)
+        # (a listener that objects to a nested update rejects that nested update, not this one)
+        top_raised = [x for x in self.raised if x[2] == 0]
+        rejected = exc is not None or bool(top_raised)
+        restore_rejected = self.rollback_rejected or any(x[1] == "restore" for x in self.raised)
         if restore_rejected:
             self.probe("restore_rejected")
         assigned = None
         if rejected:
-            want = self.prev
+            want = dict(self.prev)
+            want.update(top["late"])  # assigned by listeners in reaction to the rollback notification
+            if top["late"]:
+                self.probe("update_during_rollback_notification")
             if is_update:
                 self.rejections += 1
-            if self.raised:
+            if top_raised:
                 self.probe("rejected_by_listener")
+                if top["committed_change"]:
+                    self.probe("nested_update_then_outer_rejected")
         else:
             assigned = expect() if expect is not None else {}
             want = dict(self.prev)
             if assigned is not None:
                 want.update(assigned)
+                want.update(top["effects"])  # nested updates that returned normally (never of assigned options)
+            if top["committed_change"]:
+                self.probe("nested_update_then_outer_accepted")
         act = self.actual()
         if quiet or self.tainted:
             self.log.append((kind, via, "outcome-not-logged"))
         else:
-            self.log.append((kind, via, excname, tuple(self.calls),
+            self.log.append((kind, via, excname, tuple(self.calls), tuple(self.nested_log),
                              tuple((n, norm(act[n])) for n in self.known)))
         # 1. declared types
         for n in self.known:
@@ -889,7 +1306,7 @@ class Harness:
             n = bad[0]
             if rejected:
                 self.violation("rejected_update_not_rolled_back",
-                               {"exc": excname or "listener-only", "listener_rejected": bool(self.raised)},
+                               {"exc": excname or "listener-only", "listener_rejected": bool(top_raised)},
                                f"{kind}/{via} was rejected with {exc!r} but left {n}={short(act[n])} "
                                f"(previous value {short(want[n])}); changed options: {bad}")
             elif is_update:
@@ -901,28 +1318,26 @@ class Harness:
                                f"{kind}/{via} changed option {n}: {short(want[n])} -> {short(act[n])}")
         # 3. notifications of an accepted update
         if not rejected and assigned and is_update and not diverged:
-            names = tuple(sorted(assigned))
-            for L in self.listeners:
-                mine = [c for c in self.calls if c[0] == L.idx]
-                interested = L.kind == "changed" or bool(L.names & set(names))
-                if interested and not mine and (L.kind == "changed" or L.names):
-                    self.violation("accepted_update_bad_notification", {"listener": L.kind, "problem": "not_notified"},
-                                   f"{kind}/{via} assigned {names} but {L.kind} listener {L.idx} was not called")
-                for c in mine:
-                    if c[1] != names:
-                        self.violation("accepted_update_bad_notification",
-                                       {"listener": L.kind, "problem": "wrong_names"},
-                                       f"{kind}/{via} assigned {names} but listener {L.idx} was told {c[1]}")
-                        break
+            self.check_accept_notifications(top, assigned, f"{kind}/{via}")
+        # 3b. the state shown to listeners while they are told about the rollback of a rejected update
+        if rejected:
+            self.check_rollback_notifications(top, f"{kind}/{via}", False)
         # 4. what listeners last observed
         if not diverged:
             for L in self.listeners:
                 stale = [n for n in sorted(L.view) if n in act and not same(L.view[n], act[n])]
                 if stale:
                     n = stale[0]
-                    self.violation("listener_stale",
-                                   {"after": "rejected" if rejected else "accepted",
-                                    "restore_rejected": restore_rejected},
+                    undone = n in self.nested_undone
+                    # "after": the update whose outcome the listener has not caught up with - the operation
+                    # itself, or a nested update that a listener rejected and that had assigned this option
+                    # (itself, or through a nested update of its own that had returned normally)
+                    key = {"after": "rejected" if rejected or n in self.nested_rolled_back else "accepted",
+                           "restore_rejected": restore_rejected}
+                    if undone:
+                        # assigned by a listener's nested update that returned normally, gone again since
+                        key["undone_nested"] = True
+                    self.violation("listener_stale", key,
                                    f"after {kind}/{via} ({'rejected: ' + str(excname) if rejected else 'accepted'}) "
                                    f"{L.kind} listener {L.idx} last observed {n}={short(L.view[n])} "
                                    f"but the option is {short(act[n])}; calls={self.calls}")
@@ -992,10 +1407,10 @@ class Harness:
                 return out
             return dict(known_edits)
 
-        exc, rejected = self.transact("update", via, fn, op.get("rules"), expect)
+        exc, rejected = self.transact("update", via, fn, op.get("rules"), expect, actors=op.get("actors"))
         if rejected and isinstance(exc, TypeError) and badpos:
             self.probe("rejected_by_type_kth" if badpos[0] > 0 else "rejected_by_type_first")
-        if rejected and not self.raised and not badpos and via != "merge" and \
+        if rejected and not any(x[2] == 0 for x in self.raised) and not badpos and via != "merge" and \
                 all(clearly_valid(v, self.types[n]) for n, v in known_edits):
             self.violation("valid_update_rejected", {"exc": type(exc).__name__, "via": via},
                            f"{via}({[n for n, _ in known_edits]}) with correctly typed values and no objecting listener "
@@ -1036,14 +1451,15 @@ class Harness:
             return assigned if status == OK else None
 
         self.transact("set", "defer" if defer else "strict", lambda: self.opts.set(*specs, defer=defer),
-                      op.get("rules"), expect)
+                      op.get("rules"), expect, actors=op.get("actors"))
 
     def op_toggle(self, op):
         n = op["name"]
         if n not in self.known or self.types[n] != "bool":
             return
         cur = self.model[n]
-        self.transact("update", "toggler", lambda: self.opts.toggler(n)(), op.get("rules"), lambda: {n: not cur})
+        self.transact("update", "toggler", lambda: self.opts.toggler(n)(), op.get("rules"), lambda: {n: not cur},
+                      actors=op.get("actors"))
 
     def op_add(self, op):
         n = op["name"]
@@ -1139,7 +1555,7 @@ class Harness:
             return {n: v for n, v in exact if n in self.known}
 
         exc, rejected = self.transact("load", "live", lambda: optmanager.load_paths(self.opts, path),
-                                      op.get("rules"), expect)
+                                      op.get("rules"), expect, actors=op.get("actors"))
         if exists:
             self.probe("load_live_rejected" if rejected else "load_live_accepted")
         if rejected and isinstance(exc, TypeError) and exact is not None:
